@@ -65,6 +65,13 @@ def c06(tier, seed):
         S("MaizeGDD", "SandyLoam", seed=seed + 25, regime="hot", seasons=2, irr={"method": 4, "kw": {"NetIrrSMT": 60}}, iwc={"wc_type": "Pct", "value": [20]}),
         S("SugarBeet", "SiltClayLoam", seed=seed + 26, irr={"method": 3, "schedule": sched, "kw": {"MaxIrr": 35}}, seasons=2),
     ]
+    # crops that die DURING yield formation (good start, then a terminal drought of varying onset)
+    for j, (crop, soil, onset) in enumerate([("Maize", "Sand", 62), ("Wheat", "LoamySand", 95), ("Sorghum", "Sand", 55), ("Barley", "Sand", 50),
+                                            ("Maize", "LoamySand", 78), ("Tomato", "Sand", 60)]):
+        import datetime as _dt
+        d0 = _dt.date(2001, 4, 20) + _dt.timedelta(days=onset)
+        scs.append(S(crop, soil, seed=seed + 40 + j, regime="warm", iwc={"value": ["FC"]},
+                     events=[{"from": L.dstr(d0), "to": "2001/12/31", "P": 0, "ET0": 11, "Tmax": 36, "Tmin": 22}]))
     if tier == "thorough":
         for i in range(280):
             crop = rnd.choice([c for c in L.CROPS if L.MATURITY_CD[c] < 250])
